@@ -16,16 +16,28 @@ def unhexList : List Char → Option (List Nat)
       pure ((x * 16 + y) :: r)
   | _ => none
 
-/-- `x4142` ↦ [0x41, 0x42] -/
+def hexNat (cs : List Char) : Option Nat :=
+  if cs.isEmpty then none else
+  cs.foldl (fun acc c => match acc, hexVal c with
+    | some a, some v => some (a * 16 + v)
+    | _, _ => none) (some 0)
+
+/-- `x4142` ↦ [0x41, 0x42];  `u41.20ac` ↦ [0x41, 0x20ac] (code points, `u` alone = empty) -/
 def tokBytes (t : String) : Option (List Nat) :=
   match t.toList with
   | 'x' :: rest => unhexList rest
+  | ['u'] => some []
+  | 'u' :: rest => ((String.ofList rest).splitOn ".").mapM fun p => hexNat p.toList
   | _ => none
 
 def hexDigit (n : Nat) : Char := if n < 10 then Char.ofNat (48 + n) else Char.ofNat (87 + n)
 
+def hexOfNat (n : Nat) : String := String.ofList (Nat.toDigits 16 n)
+
 def bytesTok (bs : List Nat) : String :=
-  String.ofList ('x' :: bs.flatMap fun b => [hexDigit (b / 16 % 16), hexDigit (b % 16)])
+  if bs.all (· < 256) then
+    String.ofList ('x' :: bs.flatMap fun b => [hexDigit (b / 16 % 16), hexDigit (b % 16)])
+  else "u" ++ ".".intercalate (bs.map hexOfNat)
 
 /-- token ↦ String (token bytes are UTF-8) -/
 def tokStr (t : String) : Option String := do
